@@ -36,7 +36,8 @@ CONFIG = {
              "FASTA [any wrap] document generated here; concatenate; export_character_indices; copy constructor / "
              "deepcopy / namespace-scoped copy / clone) x a chain of 1-3 write/read hops over NEXUS {simple, "
              "preserve_spaces}, NeXML {cells, seqs}, PHYLIP {strict, relaxed, underscore pair, multispace} x {sequential, "
-             "interleaved reader}, FASTA {wrap, no wrap}, each through as_string/get(data=) or write(file=)/get(file=); "
+             "interleaved reader}, FASTA {wrap, no wrap}, each through as_string/get(data=) or write(file=)/get(file=), "
+             "handing the writer the matrix itself or (50 %) a fresh copy.copy / copy-constructor / clone(1) copy; "
              "ragged rows only for FASTA/NeXML.  History: before a route derives from its source(s) (and before the "
              "first hop otherwise) the matrix is optionally used 0-2 times (symbols_as_string/str/len of every "
              "sequence, or written through a drawn format) and must be unchanged by that; in 40 % of the cases the "
@@ -45,7 +46,8 @@ CONFIG = {
              "expectation.  Data sets: 1-3 namespaces "
              "each with a tree list and/or 1-3 matrices (from_dict, concatenate, or with new_character_subset; "
              "continuous ones with negative / small-exponent values) added in drawn order, labels optionally with "
-             "hyphens/blanks; a namespace may also carry no data block at all (never used, or its matrix added and "
+             "hyphens/blanks; a later namespace may be built from a slice / subset / permutation of the Taxon OBJECTS "
+             "of an earlier one and may join the data set before it; a namespace may also carry no data block at all (never used, or its matrix added and "
              "removed again); written to NEXUS with suppress_block_titles in {not passed, None, False} and to NeXML, "
              "each with suppress_unreferenced_taxon_namespaces in {not passed, False, True}; the ordered label lists "
              "of all re-read namespaces must equal those of the namespaces that had to be written.  "
